@@ -324,8 +324,6 @@ pub fn check_one(sh: &mut Shard, a: &IG, lat: &Lat, class: &str, verbose: bool) 
 
 /// non-finite coordinates: only observable on the geo side
 fn check_nonfinite(sh: &mut Shard, r: &mut Rng, a: &IG, lat: &Lat) {
-    let mut g = a.to_geo(lat);
-    use geo::MapCoordsInPlace;
     let n = a.coords().len();
     fn has_rect(a: &IG) -> bool {
         match a {
@@ -335,12 +333,24 @@ fn check_nonfinite(sh: &mut Shard, r: &mut Rng, a: &IG, lat: &Lat) {
         }
     }
     // Rect::new re-normalises (min/max) and thereby may drop the NaN we try to plant: not a usable carrier
-    if n == 0 || has_rect(a) {
+    // (an infinite corner survives the re-normalisation, as min or as max: Rects carry +-inf only)
+    if n == 0 {
         return;
     }
     let target = r.below(n as u64) as usize;
-    let bad = *r.pick(&[f64::NAN, f64::INFINITY, f64::NEG_INFINITY]);
+    let bad = if has_rect(a) { *r.pick(&["inf", "-inf"]) } else { *r.pick(&["nan", "inf", "-inf"]) };
     let on_x = r.chance(1, 2);
+    check_nonfinite_at(sh, a, lat, target, bad, on_x, false);
+}
+
+fn check_nonfinite_at(sh: &mut Shard, a: &IG, lat: &Lat, target: usize, bad_name: &str, on_x: bool, verbose: bool) {
+    use geo::MapCoordsInPlace;
+    let mut g = a.to_geo(lat);
+    let bad = match bad_name {
+        "nan" => f64::NAN,
+        "inf" => f64::INFINITY,
+        _ => f64::NEG_INFINITY,
+    };
     let i = std::cell::Cell::new(0usize);
     g.map_coords_in_place(|c| {
         let out = if i.get() == target {
@@ -355,11 +365,31 @@ fn check_nonfinite(sh: &mut Shard, r: &mut Rng, a: &IG, lat: &Lat) {
         i.set(i.get() + 1);
         out
     });
+    {
+        use geo::CoordsIter;
+        if g.coords_iter().all(|c| c.x.is_finite() && c.y.is_finite()) {
+            sh.class("nonfinite:not_planted");
+            return;
+        }
+    }
+    if verbose {
+        println!("with the non-finite coordinate: {:?}\nis_valid {:?} errors {:?}", g, call(|| g.is_valid()), call(|| g.validation_errors()));
+    }
     sh.cases += 1;
     sh.eval(1);
+    // the enum, the concrete type and the error list agree (one dispatch path must not differ from the other)
+    {
+        let conc = call(|| crate::with_geom!(&g, x => (x.is_valid(), x.validation_errors().is_empty(), x.check_validation().is_ok())));
+        let en = call(|| (g.is_valid(), g.validation_errors().is_empty(), g.check_validation().is_ok()));
+        if let (Ok(c), Ok(e)) = (&conc, &en) {
+            if c != e || c.0 != c.1 || c.0 != c.2 {
+                sh.violation(&format!("errors_empty_iff_valid.nonfinite|{}|-", a.kind()), json!({"property": "C14", "check": "errors_empty_iff_valid.nonfinite", "a": a.json(), "lat": lat.json(), "expected": "is_valid == validation_errors().is_empty() == check_validation().is_ok(), the same through the enum and the concrete type", "got": format!("concrete {:?}, enum {:?}", c, e), "geo": format!("{:?}", g), "nonfinite_at": target, "nonfinite": bad_name, "on_x": on_x}));
+            }
+        }
+    }
     // a non-finite coordinate makes the geometry invalid: is_valid false, validation_errors non-empty - and no panic
     // (first observed only; judged since the panics of Polygon / MultiPolygon validation on NaN were repaired in /repo)
-    let det = |exp: &str, got: String| json!({"property": "C14", "check": "is_valid.nonfinite", "a": a.json(), "lat": lat.json(), "expected": exp, "got": got, "geo": format!("{:?}", g), "nonfinite_at": target, "on_x": on_x});
+    let det = |exp: &str, got: String| json!({"property": "C14", "check": "is_valid.nonfinite", "a": a.json(), "lat": lat.json(), "expected": exp, "got": got, "geo": format!("{:?}", g), "nonfinite_at": target, "nonfinite": bad_name, "on_x": on_x});
     match call(|| g.is_valid()) {
         Ok(true) => sh.violation(&format!("is_valid.nonfinite|{}|-", a.kind()), det("false", "true".into())),
         Ok(false) => {}
@@ -617,5 +647,9 @@ pub fn replay(v: &Value, sh: &mut Shard) {
     let a = IG::from_json(&v["a"]).expect("a");
     let lat = Lat::from_json(&v["lat"]);
     println!("A = {:?}", a.to_geo(&lat));
+    if let Some(t) = v["nonfinite_at"].as_u64() {
+        check_nonfinite_at(sh, &a, &lat, t as usize, v["nonfinite"].as_str().unwrap_or("nan"), v["on_x"].as_bool().unwrap_or(true), true);
+        return;
+    }
     check_one(sh, &a, &lat, "replay", true);
 }
